@@ -368,6 +368,119 @@ def install2(T):
     Tensor.H = property(lambda s: s.transpose(-2, -1))
     T.argsort = argsort
 
+    # ---- index-driven writes / reads (indices are concrete integers or SymInts decided by the solver)
+    def _ints(index):
+        return [builtins.int(x) for x in index.a.reshape(-1)]
+
+    def index_copy_(t, dim, index, src):
+        ii = _ints(index)
+        if len(ii) != src.a.shape[dim]:
+            raise RuntimeError("index_copy_(): Number of indices should be equal to source.size(dim)")
+        T._same_dtype(t, src, "index_copy_")
+        for k, i in enumerate(ii):
+            ix_t = [slice(None)] * t.a.ndim
+            ix_s = [slice(None)] * src.a.ndim
+            ix_t[dim], ix_s[dim] = i, k
+            t.a[tuple(ix_t)] = src.a[tuple(ix_s)]
+        return t._nf_from(t, src)
+
+    def index_copy(t, dim, index, src):
+        return index_copy_(t.clone(), dim, index, src)
+
+    def index_add_(t, dim, index, src, alpha=1):
+        ii = _ints(index)
+        al = _elem(alpha, t.dtype)
+        for k, i in enumerate(ii):
+            ix_t = [slice(None)] * t.a.ndim
+            ix_s = [slice(None)] * src.a.ndim
+            ix_t[dim], ix_s[dim] = i, k
+            t.a[tuple(ix_t)] = _np(t.a[tuple(ix_t)] + src.a[tuple(ix_s)] * al)
+        return t._nf_from(t, src)
+
+    def index_fill_(t, dim, index, value):
+        v = _elem(value, t.dtype)
+        for i in _ints(index):
+            ix = [slice(None)] * t.a.ndim
+            ix[dim] = i
+            sub = t.a[tuple(ix)]
+            if isinstance(sub, np.ndarray):
+                sub[...] = T._full(sub.shape, v)
+            else:
+                t.a[tuple(ix)] = v
+        return t
+
+    def gather(t, dim, index):
+        out = np.empty(index.a.shape, dtype=object)
+        for idx in np.ndindex(*index.a.shape):
+            src = list(idx)
+            src[dim] = builtins.int(index.a[idx])
+            out[idx] = t.a[tuple(src)]
+        return _wrap(out, t.dtype, t)
+
+    def scatter_(t, dim, index, src):
+        for idx in np.ndindex(*index.a.shape):
+            dst = list(idx)
+            dst[dim] = builtins.int(index.a[idx])
+            t.a[tuple(dst)] = src.a[idx] if isinstance(src, Tensor) else _elem(src, t.dtype)
+        return t
+
+    def take_along_dim(t, index, dim):
+        return gather(t, dim, index)
+
+    for k_, f_ in dict(index_copy_=index_copy_, index_copy=index_copy, index_add_=index_add_, index_add=lambda t, d, i, s_, alpha=1: index_add_(t.clone(), d, i, s_, alpha),
+                       index_fill_=index_fill_, index_fill=lambda t, d, i, v: index_fill_(t.clone(), d, i, v), gather=gather, scatter_=scatter_,
+                       scatter=lambda t, d, i, s_: scatter_(t.clone(), d, i, s_), take_along_dim=take_along_dim).items():
+        setattr(Tensor, k_, f_)
+    for k_ in ("index_copy", "index_add", "index_fill", "gather", "scatter", "take_along_dim"):
+        setattr(T, k_, getattr(Tensor, k_))
+
+    # ---- `out=` arguments: the result is written into the given tensor(s) (same storage afterwards), as torch does
+    def _write_out(out, res):
+        if tuple(out.a.shape) != tuple(res.a.shape):
+            if out.a.size == 0 or out.a.ndim == res.a.ndim:
+                out.a = np.empty(res.a.shape, dtype=object)  # torch resizes an out tensor of the wrong size
+            else:
+                raise RuntimeError("out tensor has the wrong shape")
+        out.a[...] = T._cast_elems(res.a, res.dtype, out.dtype) if res.dtype is not out.dtype else res.a
+        return out._nf_from(res)
+
+    def _with_out(f):
+        def g(*a, out=None, **k):
+            r = f(*a, **k)
+            if out is None:
+                return r
+            if isinstance(r, tuple):
+                outs = tuple(_write_out(o, x) for o, x in zip(out, r))
+                return type(r)(*outs) if hasattr(r, "_fields") else outs
+            return _write_out(out, r)
+
+        g.__name__ = getattr(f, "__name__", "f")
+        return g
+
+    for name in ("add", "sub", "mul", "div", "matmul", "mm", "neg", "abs", "sqrt", "square", "pow", "clamp", "maximum", "minimum", "outer", "addmm", "cat", "stack", "where", "lerp",
+                 "addcmul", "addcdiv", "reciprocal", "rsqrt", "diag", "triu", "tril", "einsum", "tensordot", "index_select", "gather", "sum", "mean", "prod", "amax", "amin", "norm"):
+        if hasattr(T, name):
+            setattr(T, name, _with_out(getattr(T, name)))
+    L = T.linalg
+    for name in ("vector_norm", "norm", "matrix_norm", "qr", "eigh", "matrix_power", "multi_dot"):
+        if hasattr(L, name):
+            setattr(type(L), name, staticmethod(_with_out(getattr(L, name)))) if name in type(L).__dict__ else setattr(L, name, _with_out(getattr(L, name)))
+
+    def promote_types(a, b):
+        return T._promote_types(a, b)
+
+    def result_type(a, b):
+        da = a.dtype if isinstance(a, Tensor) else T._infer_dtype(a)
+        db = b.dtype if isinstance(b, Tensor) else T._infer_dtype(b)
+        return T._result_dtype(a if isinstance(a, Tensor) else T.tensor(a), b if isinstance(b, Tensor) else T.tensor(b)) if (isinstance(a, Tensor) or isinstance(b, Tensor)) else T._promote_types(da, db)
+
+    def can_cast(frm, to):
+        return frm.cat < to.cat or (frm.cat == to.cat and (frm.cat != 2 or True))
+
+    T.promote_types, T.result_type, T.can_cast = promote_types, result_type, can_cast
+    Tensor.narrow_copy = lambda s_, dim, start, length: s_.narrow(dim, start, length).clone()
+    T.narrow_copy = lambda t, dim, start, length: t.narrow(dim, start, length).clone()
+
     # ---- further foreach ops (out-of-place results are new tensors; in-place variants write through)
     def _lst(x, i):
         return x[i] if isinstance(x, (list, tuple)) else x
